@@ -171,7 +171,12 @@ func (*Options).Load returns (err)
 // options.New: the documented defaults (the state Load starts from), and the report goes to the process's standard
 // output - an *os.File, not a buffered writer (the precondition of every command function, C17 / A-ONEBUF)
 func New returns (o)
-  props C16 C17 C08
+  props C16 C17 C08 C15 C02 C04 C06
   ensures @defaults [C16] o != nil && fresh(o) && IsDefaultOptions(o)
   ensures @stdout [C17] o.ReporterConfig.Output != nil && typeis(o.ReporterConfig.Output, "*os.File")
+  // the remaining documented defaults: '#' starts a comment; totals and colour on; every other presentation switch
+  // off; the default template; no period
+  ensures @comment-char [C04 C16] o.ParserConfig.CommentChar == 35
+  ensures @presentation-defaults [C15 C02 C16] o.ReporterConfig.Totals && o.ReporterConfig.Color && !o.ReporterConfig.CSV && !o.ReporterConfig.TotalsOnly && !o.ReporterConfig.Collapse && !o.ReporterConfig.CollapseLast && !o.ReporterConfig.ShortenStrings && !o.ReporterConfig.UseOldRegReporter && !o.ReporterConfig.ElementGroupByFood && o.ReporterConfig.InternalTemplateName == "default" && o.ReporterConfig.CSVSeparator == 44 && o.ReporterConfig.DateFormat == "2006/01/02"
+  ensures @no-period [C06 C16] o.FilterConfig.BeginningTime == nil && o.FilterConfig.EndTime == nil
 @*/
